@@ -172,6 +172,13 @@ def readCells (cells : List Cell) (lo hi : Int) (asc : Bool) (fields : List Stri
     List (Nat × Int × List (Option String)) :=
   (sortDistinct (cells.map (·.s))).flatMap fun s => readSeries cells s lo hi asc fields
 
+/-- the read with LIMIT + OFFSET = `k` pushed into the series cursors (engine/limit_cursor.go
+`limitHelperForSingleRow`): every series stops after its first `k` rows in the direction of the
+read; the cut by OFFSET happens above the storage layer. -/
+def readCellsLim (cells : List Cell) (lo hi : Int) (asc : Bool) (fields : List String) (k : Nat) :
+    List (Nat × Int × List (Option String)) :=
+  (sortDistinct (cells.map (·.s))).flatMap fun s => (readSeries cells s lo hi asc fields).take k
+
 def St.read (st : St) (lo hi : Int) (asc : Bool) (fields : List String) :
     List (Nat × Int × List (Option String)) :=
   readCells st.cells lo hi asc fields
